@@ -28,7 +28,7 @@ From Verif.Client Require DispatchClient.
 
 (* lookup_safe: an Ok result is exactly the go.sum lines (prefix filter over the lines of the
    response) of a response whose record hash is authenticated, at the stored-hash index of its id,
-   by a Merkle path (NodeAt) to the root of a non-empty tree signed under the configured key. *)
+   by a Merkle path (NodeAt) to the root of a tree signed under the configured key. *)
 Theorem C01_lookup_safe :
   forall sha leaf_hash node_hash V esc_path esc_vers skip vs name,
   (forall msg t, signed_tree V vs msg t -> Codec.tN t < 2 ^ 62) ->
@@ -39,14 +39,13 @@ Theorem C01_lookup_safe :
   exists data id text rest tmsg t,
     lines = result_lines path vers data /\
     parse_record data = Index.Ok (id, text, rest) /\
-    signed_tree V vs tmsg t /\ (id < Codec.tN t /\ 0 < Codec.tN t) /\
+    signed_tree V vs tmsg t /\ 0 <= id < Codec.tN t /\
     node_auth (NodeAt node_hash) (Codec.tH t) (Codec.tN t) (stored_hash_index 0 id) (leaf_hash text).
 Proof. exact lookup_safe_c10. Qed.
 Print Assumptions C01_lookup_safe.
 
 (* the same with the verified Merkle path as an explicit RecordProof accepted by CheckRecord
-   (through C10's nodeat_record_path).  A response whose id is negative is checked as record 0
-   (StoredHashIndex(0, id) = 0 for id <= 0), hence Z.max id 0. *)
+   (through C10's nodeat_record_path). *)
 Theorem C01_lookup_safe_merkle_path :
   forall sha leaf_hash node_hash V esc_path esc_vers skip vs name,
   (forall msg t, signed_tree V vs msg t -> Codec.tN t < 2 ^ 62) ->
@@ -57,8 +56,8 @@ Theorem C01_lookup_safe_merkle_path :
   exists data id text rest tmsg t p,
     lines = result_lines path vers data /\
     parse_record data = Index.Ok (id, text, rest) /\
-    signed_tree V vs tmsg t /\ Z.max id 0 < Codec.tN t /\
-    check_record node_hash p (Codec.tN t) (Codec.tH t) (Z.max id 0) (leaf_hash text) = Index.Ok tt.
+    signed_tree V vs tmsg t /\ 0 <= id < Codec.tN t /\
+    check_record node_hash p (Codec.tN t) (Codec.tH t) id (leaf_hash text) = Index.Ok tt.
 Proof. exact lookup_safe_path_c10. Qed.
 Print Assumptions C01_lookup_safe_merkle_path.
 
